@@ -203,6 +203,19 @@ func step(r *mc.Run, kind string, n *mc.Node, a action, id string) any {
 		viol("panic", "command panicked: "+err.Error())
 	}
 	ok := err == nil
+	// Known-finding trigger: a successful --keep_going command that kept a stale manifest entry, so
+	// the recorded primary's certificate belongs to a previous key of the same name. Everything else
+	// wrong in such a state is a consequence; it is reported once under its own key and the state is
+	// not explored further.
+	if ok && a.keepGoing && after.PrimaryName != "" {
+		if c, pub := after.Certs[after.PrimaryName], after.Live[after.PrimaryName]; c != nil && pub != nil && !pub.Equal(c.PublicKey) {
+			viol("keep_going-kept-stale-certificate", fmt.Sprintf("%q succeeded but the recorded primary %q keeps the certificate of a previous key of that name (manifest entry already existed)", a.name, after.PrimaryName))
+			r.Validated()
+			r.Outcome(a.verb + ":ok-stale")
+			k.w.Drop()
+			return nil
+		}
+	}
 	// --- transition checks -------------------------------------------------------------
 	// No existing certificate object changes without overwrite permission.
 	if !a.overwrite {
